@@ -21,9 +21,10 @@ import (
 
 	"github.com/cloudwego/thriftgo/generator/golang"
 	"github.com/cloudwego/thriftgo/parser"
+	"github.com/cloudwego/thriftgo/semantic"
 )
 
-func typeHasEnum(t *parser.Type, visited map[*parser.Type]bool) bool {
+func typeHasEnum(ast *parser.Thrift, t *parser.Type, visited map[*parser.Type]bool) bool {
 	if t == nil {
 		return false
 	}
@@ -37,7 +38,13 @@ func typeHasEnum(t *parser.Type, visited map[*parser.Type]bool) bool {
 		visited = map[*parser.Type]bool{}
 	}
 	visited[t] = true
-	return typeHasEnum(t.KeyType, visited) || typeHasEnum(t.ValueType, visited)
+	if t.Category.IsContainerType() && t.ValueType == nil {
+		// a reference to a typedef of a container: the key and value types are in the typedef
+		if a, x, err := semantic.Deref(ast, t); err == nil {
+			ast, t = a, x
+		}
+	}
+	return typeHasEnum(ast, t.KeyType, visited) || typeHasEnum(ast, t.ValueType, visited)
 }
 
 func (g *FastGoBackend) genFastRead(w *codewriter, scope *golang.Scope, s *golang.StructLike) {
@@ -65,7 +72,7 @@ func (g *FastGoBackend) genFastRead(w *codewriter, scope *golang.Scope, s *golan
 	hasEnum := false
 	ff := getSortedFields(s)
 	for _, f := range ff {
-		if typeHasEnum(f.Type, nil) {
+		if typeHasEnum(scope.AST(), f.Type, nil) {
 			hasEnum = true
 		}
 		if f.Requiredness == parser.FieldType_Required {
